@@ -34,7 +34,82 @@ def run(tier):
                          "before any Python-level logic; what z3 decides per recorded call is the behavioural identity of the recovered lambda and the lambda that was passed")
     r.assumptions.append("the oracle is the callable itself: the expected lambda's bytecode is compared with the passed callable's __code__ before anything is judged")
     r.assumptions.append("documented layouts must be recovered; any other layout may raise, but may never record a different lambda")
+    try:
+        reload_side_check(r)
+    except Exception as e:  # noqa
+        r.harness_error("reload side check crashed: %r" % (e,))
     return r.finish()
+
+
+def reload_side_check(r):
+    """A module is imported and queries are built from its lambdas; the file is then rewritten with other lambda bodies on the same
+    lines and the module is executed again (what importlib.reload does): queries built afterwards must record the lambdas that are
+    passed now, not the text read before the edit.  Concrete history (file edits are I/O); nothing here refreshes linecache for
+    the library."""
+    import ast
+    import importlib.util
+    import os
+    import shutil
+    import sys
+    import tempfile
+    template = '''
+from func_adl import EventDataset
+
+
+class DS(EventDataset):
+    async def execute_result_async(self, a, title=None):
+        return a
+
+
+def q_select(ds):
+    return ds.Select(lambda e: e.pt%(A)s)
+
+
+def q_where(ds):
+    return ds.Where(
+        lambda e: e.eta > %(B)s
+    )
+
+
+def q_two(ds):
+    return ds.Select(lambda e: e.jets%(C)s).Select(lambda j: j.n + %(D)s)
+'''
+    versions = [dict(A="", B="1", C="", D="1"), dict(A=" / 1000.0", B="2.5", C=".Where(lambda j: j.ok)", D="20"), dict(A=" * 2", B="-1", C=".First()", D="3")]
+    d = tempfile.mkdtemp(prefix="verif_c03rl_")
+    name = "c03rl_%d" % os.getpid()
+    path = os.path.join(d, name + ".py")
+    n = 0
+    try:
+        mod = None
+        for k, v in enumerate(versions):
+            with open(path, "w") as f:
+                f.write(template % v)
+            os.utime(path, (1000000000 + 1000 * k, 1000000000 + 1000 * k))
+            if mod is None:
+                spec = importlib.util.spec_from_file_location(name, path)
+                mod = importlib.util.module_from_spec(spec)
+                sys.modules[name] = mod
+            spec.loader.exec_module(mod)
+            want = {"q_select": ["lambda e: e.pt%(A)s" % v], "q_where": ["lambda e: e.eta > %(B)s" % v], "q_two": ["lambda e: e.jets%(C)s" % v, "lambda j: j.n + %(D)s" % v]}
+            for fn, lams in want.items():
+                try:
+                    st = getattr(mod, fn)(mod.DS())
+                except ValueError:
+                    continue        # not recovering is allowed for a history; recording a stale lambda is not
+                got = []
+                node = st.query_ast
+                while isinstance(node, ast.Call) and len(node.args) == 2:
+                    got.insert(0, node.args[1])
+                    node = node.args[0]
+                n += len(lams)
+                for g, w in zip(got, lams):
+                    if ast.dump(g) != ast.dump(ast.parse(w, mode="eval").body):
+                        r.violation("after the source file was edited (version %d) and the module executed again, %s records %s where %s was passed" % (k, fn, ast.unparse(g), w),
+                                    {"engine": "concrete", "program": fn, "expected": w, "got": ast.unparse(g), "history": "edit file, re-execute module, build query"})
+    finally:
+        sys.modules.pop(name, None)
+        shutil.rmtree(d, ignore_errors=True)
+    r.coverage["concrete_reload_history_lambdas"] = n
 
 
 def replay(payload):
